@@ -7,6 +7,7 @@ git -C /repo worktree add -q "$WT" HEAD || exit 2
 VERIF_REPO="$WT" python3 /verif/check/check.py "$P" --tier "$TIER"
 rc=$?
 git -C /repo worktree remove --force "$WT"
-rm -f /verif/.build/h_*_$(printf %s "$WT" | sha1sum | cut -c1-8) 2>/dev/null
+H=$(printf %s "$WT" | sha1sum | cut -c1-8)
+rm -rf /verif/.build/h_*_$H /verif/.build/run_*_$H /verif/.build/evidence_$H /verif/.build/overlay_$H.json /verif/.build/check_*_$H.lock 2>/dev/null
 echo "exit=$rc"
 exit $rc
